@@ -327,6 +327,19 @@ func c14Check(r *core.Rng, input string, family string) core.Result {
 		return res
 	}
 	if o.Err != "" {
+		// a rejection must have a reason the README token table gives: a character outside the alphabet, an
+		// unterminated string, or (the lexer's own range check) a numeric literal too long to be exact
+		if ref, ok := refScan(input); ok && !strings.Contains(input, "\x00") { // (a NUL byte is refused wherever it stands)
+			longest := 0
+			for _, t := range ref {
+				if (t.Kind == token.IntLit || t.Kind == token.FloatLit) && len(t.Text) > longest {
+					longest = len(t.Text)
+				}
+			}
+			if longest <= 15 {
+				return fail("reference-scanner", fmt.Sprintf("lexer rejected (%s) a text the README token table allows: %s", o.Err, kindsTexts(ref)))
+			}
+		}
 		res.Verdict = core.Held
 		res.Add("rejected_inputs", 1)
 		res.Sample = map[string]any{"input": input, "rejected": o.Err}
